@@ -162,7 +162,7 @@ def decide(prop, tier, seed, args, t0):
     names_now = {o["name"] for o in all_obs if o["kind"] != "safety"}
     for b in bounded_out:
         names_now |= set(b.get("obligations", {}).keys()) if isinstance(b.get("obligations"), dict) else set()
-    missing = sorted(set(baseline.get("names", [])) - names_now) if not args.only else []
+    missing = sorted(set(baseline.get("names", [])) - names_now) if not (args.only or args.update_baseline) else []
 
     # ---- bounded parts verdicts
     for b in bounded_out:
